@@ -63,18 +63,10 @@ func ValidateGenesis(data GenesisState) error {
 				return fmt.Errorf("rewardPerBlock must be positive, but got %s", r.RewardPerBlock.String())
 			}
 
-			// If the unexpired pool rule has been updated, rewardPerShare will not be zero.
-			if !r.RewardPerShare.IsPositive() {
-				// No reward has ever been distributed.
-				if r.RemainingReward.Equal(r.TotalReward) {
-					continue
-				}
-				// The pool is expired and the reward is refund to the creator
-				if pool.EndHeight == pool.LastHeightDistrRewards {
-					continue
-				}
-
-				return fmt.Errorf("rewardPerShare must be positive, but got %s", r.RewardPerShare.String())
+			// rewardPerShare may legitimately be zero after rewards have been released:
+			// reward*10^18/totalStake truncates to zero for a small reward and a large stake
+			if r.RewardPerShare.IsNegative() {
+				return fmt.Errorf("rewardPerShare must not be negative, but got %s", r.RewardPerShare.String())
 			}
 		}
 	}
@@ -91,8 +83,9 @@ func ValidateGenesis(data GenesisState) error {
 			return err
 		}
 
-		if !info.Locked.IsPositive() {
-			return fmt.Errorf("locked must be positive, but got %s", info.Locked.String())
+		// a stake of amount zero leaves a record with nothing locked
+		if info.Locked.IsNegative() {
+			return fmt.Errorf("locked must not be negative, but got %s", info.Locked.String())
 		}
 
 		if err := sdk.NewCoins(info.RewardDebt...).Validate(); err != nil {
